@@ -672,6 +672,10 @@ func (c *Conn) readRecordOrCCS(expectChangeCipherSpec bool) error {
 		// 旧 epoch 的记录（如对端重传的上一 flight）无法用当前密钥解密：
 		// 在解密之前静默丢弃，继续下一条记录
 		if epoch < c.readEpoch {
+			// 2*MSL 驻留：对端重传了上一 flight（旧 epoch 的 CCS），说明它没有收到我方最后一 flight，重传之
+			if handshakeComplete && typ == recordTypeChangeCipherSpec {
+				c.retransmitDuringDwell()
+			}
 			c.rawInputBuf = c.rawInputBuf[recordHeaderLen+n:]
 			continue
 		}
@@ -826,6 +830,21 @@ func (c *Conn) readRecordOrCCS(expectChangeCipherSpec bool) error {
 			return nil
 		}
 	}
+}
+
+// retransmitDuringDwell 在 2*MSL 驻留期内重发我方最后一 flight；驻留期已过则清除驻留状态。
+func (c *Conn) retransmitDuringDwell() {
+	if c.dwellDeadline.IsZero() {
+		return
+	}
+	if time.Now().Before(c.dwellDeadline) {
+		if len(c.flightRetransmit) > 0 {
+			c.writeFlight(c.flightRetransmit)
+		}
+		return
+	}
+	c.dwellDeadline = time.Time{}
+	c.flightRetransmit = nil
 }
 
 // retryReadRecord 递归进入 readRecordOrCCS 以丢弃非推进记录。
@@ -1502,6 +1521,15 @@ func (c *Conn) ReadFrom(p []byte) (n int, addr net.Addr, err error) {
 		c.in.seq[6] = hdr[9]
 		c.in.seq[7] = hdr[10]
 
+		// 旧 epoch 的记录无法用当前密钥解密：解密之前静默丢弃；
+		// 驻留期内对端重传的旧 epoch CCS 说明它没有收到我方最后一 flight，重传之
+		if epoch < c.readEpoch {
+			if recordType(hdr[0]) == recordTypeChangeCipherSpec {
+				c.retransmitDuringDwell()
+			}
+			continue
+		}
+
 		record := c.rawInputBuf[:recordHeaderLen+recLen]
 		plaintext, actualTyp, err := c.in.decrypt(record)
 		if err != nil {
@@ -1509,10 +1537,6 @@ func (c *Conn) ReadFrom(p []byte) (n int, addr net.Addr, err error) {
 		}
 
 		// 重放检查（解密成功后执行，RFC 6347 §4.1.2.6）
-		if epoch < c.readEpoch {
-			// 旧 epoch：静默丢弃
-			continue
-		}
 		if epoch > c.readEpoch {
 			c.readEpoch = epoch
 			c.readSeq = 0
